@@ -37,6 +37,17 @@ type Unit struct {
 	boxed           map[*types.Var]bool
 	volatile        map[*types.Var]bool
 	loopOrd         int
+	localAlign      map[int]int
+	forIdxVars      map[int]*types.Var // loop ordinal -> counter of a `for i := 0; cond; i++` loop (stands in for rangeidxN)
+	loopExec        []int              // static source index of the loop statement per executed loop (-1: a loop of an inlined callee)
+	loopStatic      []ast.Stmt
+	loopAlign       map[int]int // current static index -> recorded static index (-1: new loop); nil: identity
+	loopAlignDone   bool
+	loopUnmatched   map[int]bool
+	loopSeenStmt    map[ast.Stmt]int
+	curLocals       []*types.Var
+	rebindNoted     map[string]bool
+	siteAlign       map[string]map[int]int
 	paramSyms       map[string]string
 	defers          []deferred
 	abstracted      bool
@@ -1391,13 +1402,13 @@ func (u *Unit) binop(st *State, op token.Token, a, b Term, rt types.Type, at ast
 	switch op {
 	case token.ADD:
 		res.S = wrap(fmt.Sprintf("(+ %s %s)", a.S, b.S))
-		u.overflowCheck(st, fmt.Sprintf("(+ %s %s)", a.S, b.S), bits, signed, at, spec)
+		u.overflowCheck(st, fmt.Sprintf("(+ %s %s)", a.S, b.S), bits, signed, at, spec, ot)
 	case token.SUB:
 		res.S = wrap(fmt.Sprintf("(- %s %s)", a.S, b.S))
-		u.overflowCheck(st, fmt.Sprintf("(- %s %s)", a.S, b.S), bits, signed, at, spec)
+		u.overflowCheck(st, fmt.Sprintf("(- %s %s)", a.S, b.S), bits, signed, at, spec, ot)
 	case token.MUL:
 		res.S = wrap(fmt.Sprintf("(* %s %s)", a.S, b.S))
-		u.overflowCheck(st, fmt.Sprintf("(* %s %s)", a.S, b.S), bits, signed, at, spec)
+		u.overflowCheck(st, fmt.Sprintf("(* %s %s)", a.S, b.S), bits, signed, at, spec, ot)
 	case token.QUO, token.REM:
 		if st != nil && !spec {
 			u.emit(st, "safety", u.safetyName("div", u.exprText(at)), "division by zero", at.Pos(), not(eq(b.S, "0")))
@@ -1423,7 +1434,7 @@ func (u *Unit) binop(st *State, op token.Token, a, b Term, rt types.Type, at ast
 		if b.K != nil && b.K.IsInt64() && b.K.Int64() >= 0 && b.K.Int64() < 256 {
 			m := pow2(int(b.K.Int64()))
 			res.S = wrap(fmt.Sprintf("(* %s %s)", a.S, m.String()))
-			u.overflowCheck(st, fmt.Sprintf("(* %s %s)", a.S, m.String()), bits, signed, at, spec)
+			u.overflowCheck(st, fmt.Sprintf("(* %s %s)", a.S, m.String()), bits, signed, at, spec, ot)
 		} else {
 			return u.opaqueOp(st, ot, at)
 		}
@@ -1511,9 +1522,18 @@ func (u *Unit) opaqueOp(st *State, t types.Type, at ast.Node) Term {
 	return Term{S: u.c.fresh("bitop", u.c.sortOf(t)), T: t}
 }
 
-func (u *Unit) overflowCheck(st *State, math string, bits int, signed bool, at ast.Node, spec bool) {
+func (u *Unit) overflowCheck(st *State, math string, bits int, signed bool, at ast.Node, spec bool, ot types.Type) {
 	if st == nil || spec || u.ct == nil || !u.ct.CheckOverflow {
 		return
+	}
+	// `check overflow` is about arithmetic on fixed-width values that come from outside (uint64 slots, offsets, sizes);
+	// platform-sized int/uint counters of in-memory objects (range indices, sums of lengths) are not checked: they are
+	// bounded by the address space, not by anything a contract could state (listed as an assumption in the evidence)
+	if b, ok := ot.Underlying().(*types.Basic); ok {
+		switch b.Kind() {
+		case types.Int, types.Uint, types.Uintptr, types.UntypedInt:
+			return
+		}
 	}
 	u.emit(st, "overflow", u.safetyName("overflow", u.exprText(at)), "no overflow: "+u.exprText(at), at.Pos(), u.c.inRange(math, bits, signed))
 }
